@@ -575,7 +575,13 @@ impl<Left: Executor, Right: Executor> MergeJoin<Left, Right> {
 
     fn compare_keys(&self, left_keys: &[DataType], right_keys: &[DataType]) -> Ordering {
         for (l, r) in left_keys.iter().zip(right_keys.iter()) {
-            if matches!(l, DataType::Null) || matches!(r, DataType::Null) {
+            // A NULL key never matches anything, so the row holding it is skipped: the left
+            // row when the NULL is on the left (otherwise a NULL-keyed left row, which sorts
+            // first, would drain the whole right input), the right row otherwise.
+            if matches!(l, DataType::Null) {
+                return Ordering::Less;
+            }
+            if matches!(r, DataType::Null) {
                 return Ordering::Greater;
             }
             match l.partial_cmp(r) {
